@@ -149,4 +149,53 @@ def run_case(case):
                     prev, cur = D[seq[-2]], D[last]
                     shape = "same shape" if getattr(prev.get("X"), "shape", None) == getattr(cur.get("X"), "shape", None) else "different shape"
                     bad("refitted model differs from a fresh clone fitted on the same data", shape, "%s %s" % (d, hdesc))
+    # ---- set_params between two fits: fit(Da); set_params(k=v); fit(Db) must equal a fresh object given k=v and fitted on Db
+    from checks import c01 as P1
+    try:
+        keys = P1._curated(make(), e["strs"], 8, e["skip"], every=True)
+    except Exception:
+        keys = []
+    for (k, _cat) in keys:
+        if k.rsplit("__", 1)[-1].endswith("warm_start"):
+            continue    # warm_start=True asks for state to be carried over: outside the property
+        for (da, db) in ((0, 0), (0, 1), (1, 0)):
+            if db >= nd or da >= nd:
+                continue
+            cnt += 1
+            hdesc = "variant=%s fit(data %d); set_params(%s=...); fit(data %d)" % (case["variant"], da, k, db)
+            try:
+                est = make()
+                ok_, nv = P1._fresh_value(k, est.get_params(deep=True)[k], e["strs"], est, e["skip"])
+                ref = make()
+                ref.set_params(**{k: nv})
+                try:
+                    fo = ("ok", fit_obs(ref, db, 0))
+                except Exception as ex:
+                    fo = ("raises", type(ex).__name__)
+                numpy.random.seed(0)
+                K.fit(est, kind, D[da])
+                try:
+                    K.observe(est, kind, D[da])
+                except Exception:
+                    pass
+                ok2, nv2 = P1._fresh_value(k, est.get_params(deep=True)[k], e["strs"], est, e["skip"])
+                est.set_params(**{k: nv2})
+                trans += 3
+                try:
+                    o = ("ok", fit_obs(est, db, 0))
+                except Exception as ex:
+                    o = ("raises", type(ex).__name__)
+            except Exception:
+                continue     # the parameter protocol itself is C01's business
+            if fo[0] != o[0]:
+                bad("refit after set_params %s but a fresh object with the same parameters %s" % (
+                    "raises" if o[0] == "raises" else "fits", "fits" if fo[0] == "ok" else "raises"), "set_params between fits",
+                    "%r vs %r %s" % (o[1] if o[0] == "raises" else "ok", fo[1] if fo[0] == "raises" else "ok", hdesc))
+            elif fo[0] == "ok":
+                # attribute NAMES left over from the earlier fit are not violations unless an output changes (design 4/C03)
+                meths = {"predict", "predict_proba", "transform", "transform.columns", "transform_y", "transform_y_closest"}
+                common = {kk for kk in set(fo[1]) | set(o[1]) if kk in meths or (kk in fo[1] and kk in o[1])}
+                d = K.same_obs({kk: v for kk, v in fo[1].items() if kk in common}, {kk: v for kk, v in o[1].items() if kk in common})
+                if d:
+                    bad("refit after set_params differs from a fresh object with the same parameters", "set_params between fits", "%s %s" % (d, hdesc))
     return {"viol": viol, "nontrivial": ntriv > 0, "states": cnt, "transitions": trans, "outcome": (cls, case["variant"])}
